@@ -2,7 +2,7 @@
 Executable (decidable) version of the representation invariant, evaluated by the driver on
 the *implementation's* raw state as delivered by hook H1 (`verif_dump`), and the decoding
 of the raw `u32` slot indices (slot.rs: FREE_BIT, FREE_LIST_END).  Import-free.
-`Lemmas/CheckSound.lean` proves `invCheck cfg s = true → Inv cfg s`.
+`Lemmas/CheckSound.lean` proves `invCheck cfg s = true ↔ Inv cfg s` (`invCheck_iff`).
 -/
 import Gecs.Model.Storage
 
